@@ -41,6 +41,10 @@ fn domain() -> Vec<(String, Value)> {
         ("REAL:-1.0".into(), f(-1.0)),
         ("REAL:-0.0".into(), f(-0.0)),
         ("REAL:0.0".into(), f(0.0)),
+        ("REAL:5e-324".into(), f(5e-324)),
+        ("REAL:0.5".into(), f(0.5)),
+        ("REAL:0.5+1ulp".into(), f(f64::from_bits(0.5f64.to_bits() + 1))),
+        ("REAL:0.5+2ulp".into(), f(f64::from_bits(0.5f64.to_bits() + 2))),
         ("REAL:1.0".into(), f(1.0)),
         ("REAL:2^53".into(), f(9007199254740992.0)),
         ("REAL:9.3e18".into(), f(9.3e18)),
@@ -672,9 +676,102 @@ fn layer_ts(col: &Collector) {
     col.layer("TS-instants from lines (micro / millisecond fractions): every deduplicating consumer", n, true, json!({"instants_per_table": 7, "max_len": 3}));
 }
 
+/// Layer DF: a column whose values come partly from its DEFAULT (literal of the column's type, and - where the definition
+/// is accepted at all - literals of another type: `REAL DEFAULT 0`, `INT DEFAULT 0.0`, ...): the groups of GROUP BY x are
+/// the classes of WHERE x = key (the count of every group equals the number of rows WHERE finds equal to its key), the
+/// keys ascend by numeric value, DISTINCT / COUNT(DISTINCT) see as many values as there are groups
+fn layer_df(col: &Collector) -> Vec<Failure> {
+    let mut out = Vec::new();
+    let mut accepted = 0u64;
+    let mut rejected = 0u64;
+    let lines = ["k=a x=-1.5", "k=a x=0.0", "k=a", "k=a x=2.5", "k=b", "k=b x=-0.25", "k=a x=0", "k=b x=1", "k=b x=1.0"];
+    for (ty, dflt) in [("REAL", "0.0"), ("REAL", "0"), ("REAL", "-1"), ("REAL", "1"), ("INT", "0"), ("INT", "1"), ("INT", "0.0"), ("INT", "1.5"), ("REAL", "TRUE"), ("INT", "'1'"), ("REAL", "'0.0'")] {
+        let def = format!("CREATE TABLE d('k=([a-z]+)' => k TEXT, 'x=([^ ]+)' => x {} DEFAULT {});", ty, dflt);
+        let tables = match sut::make_tables(&def) {
+            Ok(t) => t,
+            Err(_) => {
+                rejected += 1;
+                continue;
+            }
+        };
+        accepted += 1;
+        col.eval(1);
+        col.nontrivial(h64(&("DF", ty, dflt)));
+        let rows_of = |q: &str| -> Result<Vec<Vec<RVal>>, String> {
+            match sut::run_batch(&tables, &sut::parse(q).map_err(|e| format!("{:?}", e))?, &lines) {
+                Outcome::Ok(t) => Ok(t.rows),
+                Outcome::Err(e) => Err(e),
+                Outcome::Panic(p) => Err(format!("panic: {}", p.msg)),
+            }
+        };
+        let mut problems: Vec<String> = Vec::new();
+        let num = |v: &RVal| -> Option<f64> { match v { RVal::Int(i) => Some(*i as f64), RVal::Real(r) => Some(*r), _ => None } };
+        match rows_of("SELECT x, COUNT(*) FROM d GROUP BY x") {
+            Ok(groups) => {
+                for w in groups.windows(2) {
+                    if let (Some(a), Some(b)) = (num(&w[0][0]), num(&w[1][0])) {
+                        if !(a < b) {
+                            problems.push(format!("group keys {:?} and {:?} are not ascending", w[0][0], w[1][0]));
+                        }
+                    }
+                }
+                for g in &groups {
+                    let lit = match &g[0] { RVal::Int(i) => i.to_string(), RVal::Real(r) => format!("{:?}", r), _ => continue };
+                    let cnt = match &g[1] { RVal::Int(i) => *i, _ => -1 };
+                    match rows_of(&format!("SELECT COUNT(*) FROM d WHERE x = {}", lit)) {
+                        Ok(r) => {
+                            let w = match r.get(0).and_then(|x| x.get(0)) { Some(RVal::Int(i)) => *i, _ => 0 };
+                            if w != cnt {
+                                problems.push(format!("the group of key {} has {} rows, WHERE x = {} finds {}", lit, cnt, lit, w));
+                            }
+                        }
+                        Err(e) => problems.push(format!("WHERE x = {}: {}", lit, e)),
+                    }
+                }
+                let ng = groups.len() as i64;
+                for (q, what) in [("SELECT DISTINCT x FROM d", "DISTINCT rows"), ("SELECT COUNT(DISTINCT x) FROM d", "COUNT(DISTINCT x)")] {
+                    match rows_of(q) {
+                        Ok(r) => {
+                            let n = if what == "DISTINCT rows" { r.len() as i64 } else { match r.get(0).and_then(|x| x.get(0)) { Some(RVal::Int(i)) => *i, _ => -1 } };
+                            let want = if what == "DISTINCT rows" { ng } else { groups.iter().filter(|g| !g[0].is_null()).count() as i64 };
+                            if n != want {
+                                problems.push(format!("{} = {}, groups = {}", what, n, want));
+                            }
+                        }
+                        Err(e) => problems.push(format!("{}: {}", what, e)),
+                    }
+                }
+                if let Ok(r) = rows_of("SELECT MIN(x), MAX(x) FROM d") {
+                    if let (Some(lo), Some(hi), Some(first), Some(last)) = (r.get(0).and_then(|x| num(&x[0])), r.get(0).and_then(|x| num(&x[1])), groups.first().and_then(|g| num(&g[0])), groups.last().and_then(|g| num(&g[0]))) {
+                        if lo != first || hi != last {
+                            problems.push(format!("MIN / MAX = {} / {}, first / last group key = {} / {}", lo, hi, first, last));
+                        }
+                    }
+                }
+            }
+            Err(e) => problems.push(format!("GROUP BY x: {}", e)),
+        }
+        if !problems.is_empty() {
+            out.push(fail(
+                format!("consumer:default-values:{} DEFAULT {}", ty, if dflt.contains('.') || dflt.starts_with('\'') || dflt == "TRUE" { "literal-of-the-type-or-other" } else { "integer-literal" }),
+                format!("column `x {} DEFAULT {}` over {:?}: {}", ty, dflt, lines, problems.iter().take(4).cloned().collect::<Vec<_>>().join("; ")),
+                json!({"layer": "DF", "type": ty, "default": dflt, "definition": def}),
+                json!("groups = classes of WHERE equality, ascending keys"),
+                json!(problems),
+                accepted,
+            ));
+        }
+    }
+    col.layer("DF-columns filled partly from their DEFAULT (literal of the type / of another type where accepted)", accepted, true, json!({"definitions_accepted": accepted, "definitions_rejected": rejected}));
+    out
+}
+
 pub fn run(ctx: &Ctx) -> i32 {
     let col = Collector::new();
     layer_ts(&col);
+    for f in layer_df(&col) {
+        col.fail(f);
+    }
     let d = domain();
     let n = d.len();
     // Layer A pairs
@@ -792,6 +889,7 @@ pub fn run(ctx: &Ctx) -> i32 {
 pub fn replay(case: &J) -> Vec<Failure> {
     match case["layer"].as_str() {
         Some("A") => layer_a_case(case["i"].as_u64().unwrap() as usize, case["j"].as_u64().unwrap() as usize, case["k"].as_u64().map(|k| k as usize)),
+        Some("DF") => layer_df(&Collector::new()).into_iter().filter(|f| f.case == *case).collect(),
         Some("TS") => {
             let c = Collector::new();
             layer_ts(&c);
